@@ -5,8 +5,10 @@ package transfer
 
 import (
 	"bytes"
+	"encoding/binary"
 	"encoding/json"
 	"fmt"
+	"hash/crc32"
 	"os"
 	"path/filepath"
 	"sort"
@@ -350,8 +352,12 @@ func runChain(sp *txSpec, src, out string, enumN int) (cr chainResult) {
 			cfg.faults = []txFault{*l.Fault}
 		}
 		lastGood = map[string][]byte{}
+		installedBroken = nil
 		ep := runEpisodeTracked(cfg, lastGood)
 		cr.eps = append(cr.eps, ep)
+		for _, b := range installedBroken {
+			cr.c05 = append(cr.c05, fmt.Sprintf("%s (link %d)", b, li))
+		}
 		if ep.outcome != verifsim.Finished {
 			cr.skipped = "interrupted run hung (C02/C03's business): " + hangSignature(ep)
 			return
@@ -382,7 +388,18 @@ func runEpisodeTracked(cfg epCfg, lastGood map[string][]byte) *epResult {
 		switch op.Kind {
 		case "rename", "writefile":
 			if b, err := os.ReadFile(p); err == nil {
+				// the version just installed must be a complete record: a kill right
+				// now must not find garbage where a valid version was before
+				if _, had := lastGood[p]; had {
+					if lerr := sidecarRecordValid(b); lerr != nil {
+						installedBroken = append(installedBroken, fmt.Sprintf("sidecar-not-atomic|%s: a %s by %s replaced a valid version with an unreadable one (%d bytes: %v); a kill at that instant loses every recorded chunk", filepath.Base(p), op.Kind, op.Site, len(b), lerr))
+					}
+				}
 				lastGood[p] = b
+			}
+		case "wfopen":
+			if _, had := lastGood[p]; had {
+				installedBroken = append(installedBroken, fmt.Sprintf("sidecar-not-atomic|%s: rewritten in place by %s (truncated while it held a valid version)", filepath.Base(p), op.Site))
 			}
 		case "remove":
 			delete(lastGood, p)
@@ -391,6 +408,39 @@ func runEpisodeTracked(cfg epCfg, lastGood map[string][]byte) *epResult {
 	defer func() { trackOps = nil }()
 	return runEpisode(cfg)
 }
+
+// sidecarRecordValid is the harness' own reading of the sidecar format (magic,
+// version, chunk size, file size, chunk count, id, bitmap, CRC-32C of all that);
+// it does not go through the code under test or the interposed file system.
+func sidecarRecordValid(b []byte) error {
+	if len(b) < 4+2+4+8+4+2+4+4 {
+		return fmt.Errorf("too short (%d bytes)", len(b))
+	}
+	if string(b[:4]) != "SBM2" {
+		return fmt.Errorf("bad magic %q", b[:4])
+	}
+	total := binary.BigEndian.Uint32(b[18:22])
+	idLen := int(binary.BigEndian.Uint16(b[22:24]))
+	o := 24 + idLen
+	if o+4 > len(b) {
+		return fmt.Errorf("id runs past the end")
+	}
+	bl := int(binary.BigEndian.Uint32(b[o : o+4]))
+	o += 4
+	if o+bl+4 != len(b) {
+		return fmt.Errorf("length %d does not match bitmap length %d", len(b), bl)
+	}
+	if bl != int((total+7)/8) {
+		return fmt.Errorf("bitmap of %d bytes for %d chunks", bl, total)
+	}
+	if crc32.Checksum(b[:o+bl], crc32.MakeTable(crc32.Castagnoli)) != binary.BigEndian.Uint32(b[o+bl:]) {
+		return fmt.Errorf("checksum mismatch")
+	}
+	return nil
+}
+
+// installedBroken collects atomic-replacement breaks observed while a run was going on.
+var installedBroken []string
 
 var trackOps func(op *verifsim.FSOp)
 
